@@ -411,7 +411,8 @@ def main():
     for o, ans in list(zip(owners, answers))[:4]:
         ck.sample({"network": o["desc"], "opts": o["opts"], "features": o["features"], "verdict": ans[:200]})
     wanted = ["multiple_outputs", "duplicated_operand", "dynamic_weights", "third_party_custom", "custom_options_nonempty",
-              "float_detour", "float_tensors", "unsupported_rank_gt4", "unsupported_batch_gt1", "multiple_inputs"]
+              "float_detour", "float_tensors", "unsupported_rank_gt4", "unsupported_batch_gt1", "multiple_inputs",
+              "omitted_operand_before_real_operand", "quantisation_min_max", "custom_options_absent"]
     missing = [w for w in wanted if not ck.counters.get("feature_" + w)]
     ck.finish({
         "programs": programs,
